@@ -90,6 +90,30 @@ func structsMain(dirs []string, out string) {
 			return false
 		})
 	}
+	methodsOf := map[string]map[string]bool{}
+	for _, f := range files {
+		for _, d := range f.Decls {
+			if fd, ok := d.(*ast.FuncDecl); ok && fd.Recv != nil && len(fd.Recv.List) == 1 {
+				t := fd.Recv.List[0].Type
+				if _, isPtr := t.(*ast.StarExpr); !isPtr {
+					t = &ast.StarExpr{X: t}
+				}
+				if sn, ok := recvTypeName(t); ok {
+					if methodsOf[sn] == nil {
+						methodsOf[sn] = map[string]bool{}
+					}
+					methodsOf[sn][fd.Name.Name] = true
+				}
+			}
+		}
+	}
+	type scall struct {
+		strct, caller, callee string
+		locks                 []string
+		line                  int
+	}
+	var scalls []scall
+	var entries [][2]string
 	var accs []sacc
 	for fi, f := range files {
 		for _, d := range f.Decls {
@@ -102,6 +126,9 @@ func structsMain(dirs []string, out string) {
 				continue
 			}
 			rv := fd.Recv.List[0].Names[0].Name
+			if ast.IsExported(fd.Name.Name) {
+				entries = append(entries, [2]string{sname, fd.Name.Name})
+			}
 			rootSel := func(e ast.Expr) *ast.SelectorExpr {
 				for {
 					switch x := e.(type) {
@@ -187,6 +214,10 @@ func structsMain(dirs []string, out string) {
 			inspectWithLocks(fd.Body, held, func(e ast.Expr) string { return strings.TrimPrefix(exprString(e), rv+".") }, func(n ast.Node) bool {
 				if x, ok := n.(*ast.SelectorExpr); ok {
 					if id, ok := x.X.(*ast.Ident); ok && id.Name == rv {
+						if methodsOf[sname][x.Sel.Name] && !fields[sname][x.Sel.Name] {
+							// rv.helper(...) or rv.helper passed as a value: a call on the same receiver
+							scalls = append(scalls, scall{sname, fd.Name.Name, x.Sel.Name, heldList(), fset.Position(x.Pos()).Line})
+						}
 						if fields[sname][x.Sel.Name] {
 							k := "AR"
 							if writes[x] {
@@ -224,6 +255,18 @@ func structsMain(dirs []string, out string) {
 		items = append(items, fmt.Sprintf("mkcacc %s %s %s %s %s %s %d", q(a.strct), q(a.method), q(a.field), a.kind, lst(a.locks), q(a.file), a.line))
 	}
 	sb.WriteString(strings.Join(items, ";\n    ") + " ].\n")
+	items = nil
+	for _, c := range scalls {
+		items = append(items, fmt.Sprintf("mkccall %s %s %s %s %d", q(c.strct), q(c.caller), q(c.callee), lst(c.locks), c.line))
+	}
+	sb.WriteString("\n(* calls of a method on the same receiver, with the receiver's mutexes held at the call site *)\n")
+	sb.WriteString("Definition client_calls : list ccall :=\n  [ " + strings.Join(items, ";\n    ") + " ].\n")
+	items = nil
+	for _, e := range entries {
+		items = append(items, "("+q(e[0])+", "+q(e[1])+")")
+	}
+	sb.WriteString("\n(* exported methods: callable from outside with no lock held *)\n")
+	sb.WriteString("Definition client_entries : list (string * string) :=\n  [ " + strings.Join(items, ";\n    ") + " ].\n")
 	escs, muts := analyseEscapes(fset, files, fnames)
 	sb.WriteString(printEscapes(escs, muts))
 	old, _ := os.ReadFile(out)
